@@ -10,6 +10,16 @@ import p_filter as PF
 from codec import sansldap
 
 LEAN_TARGETS = ["Verif.Props.C13", "Verif.Props.Ties", "Verif.Props.C13More"]
+SECOND_TIE = {
+    "what": "the recursive-descent parser behind LDAPFilter.from_string (_unpack_filter, _unpack_complex_filter, _unpack_simple_filter, "
+            "_unpack_filter_extensible_header, _unpack_filter_substrings_value, from_string itself) translated statement by statement from the Python AST "
+            "into Lean (harness/py2lean.py -> Generated/FilterGen.lean) and proved equal to the hand-written model of Model/FilterText.lean "
+            "(Props/TiesFilter.lean: same tree, same consumed count, same error offset and length, for all inputs and all sufficient fuel); trusted boundary: "
+            "_ATTRIBUTE_PATTERN.match = validAttr (tied by Props/Ties.lean), the re.sub-based _unpack_filter_value = the model's unescape, str.strip / encode",
+    "translator": "py2lean.py",
+    "targets": ["Verif.Props.TiesFilter"],
+    "validate": "p_filtergen.py",
+}
 LEVEL = "proof"
 ASSUMPTIONS = [
     "domain (WFText): RFC 4512 attribute descriptions / matching rules, non-empty and/or lists, substrings with at least one and no empty "
